@@ -218,7 +218,7 @@ impl Hist {
                     }
                     _ => bad.push(("injected-panic-unexpected".into(), format!("injected panic in {:?}", op))),
                 }
-                ret_owner = self.f.panic || self.f.shape;
+                ret_owner = self.f.panic || self.f.shape || self.f.len || self.f.arena;
             }
             (Err(p), _) => {
                 let own = self.f.ret || self.f.panic || self.f.clone || (self.f.muta && is_write_op(op)) || (self.f.child && matches!(op, Op::Retain(..) | Op::RemoveChildren(_)));
